@@ -181,6 +181,44 @@ def pairAt (sched : Nat → Dir) (p0 : St × St) : Nat → St × St
   | 0 => p0
   | n + 1 => xstep (pairAt sched p0 n) (sched n)
 
+/-! ### Two sessions over two FIFO channels (packets in flight) -/
+
+/-- `a`, `b`: the local states; `qab`: packets in flight from A to B (oldest first), each
+carrying the state A had when it sent it; `qba` likewise -/
+structure ACfg where
+  a : St
+  b : St
+  qab : List St
+  qba : List St
+  deriving DecidableEq, Repr
+
+inductive Act where
+  | sendA | sendB | recvA | recvB
+  deriving DecidableEq, Repr
+
+/-- one action; a receive on an empty channel does nothing -/
+def astep (c : ACfg) : Act → ACfg
+  | .sendA => { c with qab := c.qab ++ [c.a] }
+  | .sendB => { c with qba := c.qba ++ [c.b] }
+  | .recvA => match c.qba with
+    | [] => c
+    | x :: r => { c with a := recvStep c.a x, qba := r }
+  | .recvB => match c.qab with
+    | [] => c
+    | x :: r => { c with b := recvStep c.b x, qab := r }
+
+/-- the configuration after `n` actions of schedule `sched` -/
+def acfgAt (sched : Nat → Act) (c0 : ACfg) : Nat → ACfg
+  | 0 => c0
+  | n + 1 => astep (acfgAt sched c0 n) (sched n)
+
+/-- both sessions freshly started, nothing in flight -/
+def aInit : ACfg := ⟨.down, .down, [], []⟩
+
+/-- a detection-timer expiry at A / at B (only used to show how a configuration arises) -/
+def atimerA (c : ACfg) : ACfg := { c with a := timerStep c.a }
+def atimerB (c : ACfg) : ACfg := { c with b := timerStep c.b }
+
 /-! ### Send interval (jitter.go) -/
 
 def minJitter : Nat := 0
